@@ -34,7 +34,7 @@ from . import CodeData
 __all__ = ["main"]
 
 parser = argparse.ArgumentParser(description="Inspect Python code objects.")
-parser.add_argument("file", type=pathlib.Path, nargs="?", help="path to Python program")
+parser.add_argument("file", type=str, nargs="?", help="path to Python program")
 parser.add_argument("-c", type=str, help="program passed in as string", metavar="cmd")
 parser.add_argument(
     "-e", type=str, help="string evalled to make program", metavar="eval"
@@ -88,7 +88,8 @@ def main():
     elif file is not None:
         # Compile the bytes of the file, so that an encoding declaration and a BOM
         # are handled like Python handles them
-        code = compile(file.read_bytes(), str(file), "exec")
+        # The file name is kept as it was given (pathlib would turn ./a.py into a.py)
+        code = compile(pathlib.Path(file).read_bytes(), file, "exec")
         with tokenize.open(file) as source_file:
             source = source_file.read()
     elif cmd is not None:
